@@ -1,10 +1,10 @@
 SPECIFICATION Spec
 CONSTANTS
   Keys <- MCKeys
-  RegPeers <- MCRegPeers
+  RegPeers <- MCNoPeers
   AllPeers <- MCAllPeers
-  Cums <- MCCums
-  ClaimKeys <- MCNoPeers
+  Cums <- MCCumsSmall
+  ClaimKeys <- MCKeys
 VIEW MCView
 INVARIANTS TypeOK CreditedOnce RightPeer OnlyRegisteredIssuers OneToOne
 PROPERTIES Monotone RegStable
